@@ -457,7 +457,7 @@ class Interp:
         return val
 
     def index_value(self, val, iv):
-        if isinstance(val, Agg) and val.kind in ("array", "slice", "vec"):
+        if isinstance(val, Agg) and val.kind in ("array", "slice", "vec", "hashmap", "btreemap", "hashset"):
             if isinstance(iv, int):
                 return val.fields[iv]
             sv = z3.simplify(iv) if z3.is_expr(iv) else iv
